@@ -14,6 +14,7 @@ CONSTANTS
  DevDangEnd = FALSE
  DevNoAtomResname = FALSE
  DevOrderedPairs = FALSE
+ DevGateOnce = FALSE
  DevDegree = FALSE
 INVARIANT Judge
 POSTCONDITION Accepted
